@@ -222,13 +222,33 @@ theorem kSymlink_good {a : FS} (hinv : Inv dest a) {up : List Name} {c : Name} (
       obtain ⟨hL, hD, hin⟩ := nofollow_location hinv hc hP hPin hk
       subst hL
       simp only []
+      have key : ¬ IsDir a (P ++ [c]) →
+          MStep dest a (match kres (a.delName (P ++ [c])) cfg false (up ++ [c]) with
+            | .ok loc' =>
+              if loc' = P ++ [c] then
+                (((a.delName (P ++ [c])).alloc ⟨.symlink target, 0o777⟩).setName (P ++ [c]) (.ref a.next), KRes.ok)
+              else (a.delName (P ++ [c]), KRes.unsup)
+            | .error _ => (a.delName (P ++ [c]), KRes.unsup)).1 ∧
+          Inv dest (match kres (a.delName (P ++ [c])) cfg false (up ++ [c]) with
+            | .ok loc' =>
+              if loc' = P ++ [c] then
+                (((a.delName (P ++ [c])).alloc ⟨.symlink target, 0o777⟩).setName (P ++ [c]) (.ref a.next), KRes.ok)
+              else (a.delName (P ++ [c]), KRes.unsup)
+            | .error _ => (a.delName (P ++ [c]), KRes.unsup)).1 := by
+        intro hnd
+        cases kres (a.delName (P ++ [c])) cfg false (up ++ [c]) with
+        | error e => exact step_unlink hinv hin hnd
+        | ok loc' =>
+          simp only []
+          split
+          · exact step_symlink hinv _ hin hD hnd
+          · exact step_unlink hinv hin hnd
       cases hl : a.look (P ++ [c]) with
-      | none =>
-        exact step_symlink hinv _ hin hD (by intro ⟨m, hm⟩; rw [hl] at hm; cases hm)
+      | none => exact key (by intro ⟨m, hm⟩; rw [hl] at hm; cases hm)
       | some e =>
         cases e with
         | dir m => exact ⟨MStep.refl _ _, hinv⟩
-        | ref i => exact step_symlink hinv _ hin hD (by intro ⟨m, hm⟩; rw [hl] at hm; cases hm)
+        | ref i => exact key (by intro ⟨m, hm⟩; rw [hl] at hm; cases hm)
 
 /-- `os.link(src, up/c)` where `src` is known to be an inside non-link -/
 theorem kLink_good {a : FS} (hinv : Inv dest a) {up : List Name} {c : Name} (hc : c ≠ dot ∧ c ≠ dotdot)
